@@ -338,7 +338,22 @@ public:
                 if (fd->getIdentifier() && (fd->getName() == "move" || fd->getName() == "forward") && as.size() == 1 &&
                     fd->isInStdNamespace()) return E(as[0]);
                 json::Array a{"call", qname(fd)};
-                return args(std::move(a), as);
+                json::Value av = args(std::move(a), as);
+                // explicitly written template arguments (Using<CompactSizeFormatter<false>>(x)) as a trailing marker
+                if (auto* dre = dyn_cast_or_null<DeclRefExpr>(strip(x->getCallee()))) {
+                    if (dre->hasExplicitTemplateArgs()) {
+                        std::string ts;
+                        PrintingPolicy PP(Ctx.getLangOpts()); PP.SuppressTagKeyword = true; PP.Bool = true;
+                        for (auto& tal : dre->template_arguments()) {
+                            if (!ts.empty()) ts += ", ";
+                            llvm::raw_string_ostream os(ts);
+                            tal.getArgument().print(PP, os, /*IncludeType=*/false);
+                            os.flush();
+                        }
+                        if (auto* arr = av.getAsArray()) arr->push_back(json::Array{"targs", ts});
+                    }
+                }
+                return av;
             }
             const Expr* cal = strip(x->getCallee());
             if (auto* ul = dyn_cast_or_null<UnresolvedLookupExpr>(cal)) {
